@@ -465,6 +465,24 @@ theorem run_invariant {env : Env} (P : Chain → Prop) (hstep : ∀ c now m, P c
   | nil => exact h
   | cons x ms ih => obtain ⟨now, m⟩ := x; rw [run_cons]; exact ih _ (hstep c now m h)
 
+theorem toggleClient_ok {c c' : Chain} {chain : Bytes} {cl : Client} (hu : toggleClient c chain cl = .ok c') :
+    ∃ cls, c' = { c with clients := cls } := by
+  unfold toggleClient at hu
+  split at hu
+  · cases hu
+  · split at hu
+    · cases hu
+    · injection hu with hu; exact ⟨_, hu.symm⟩
+
+theorem upgradeClient_ok {c c' : Chain} {chain : Bytes} {cl : Client} (hu : upgradeClient c chain cl = .ok c') :
+    ∃ cls, c' = { c with clients := cls } := by
+  unfold upgradeClient at hu
+  split at hu
+  · cases hu
+  · split at hu
+    · injection hu with hu; exact ⟨_, hu.symm⟩
+    · cases hu
+
 end TM.Xibc
 
 namespace TM.Xibc
